@@ -423,6 +423,19 @@ void op_it_next(const Step& s) {
 	}
 }
 
+// copy an iterator in mid-flight: the copy and the original continue independently and each still yields
+// every rule exactly once in total (what it yielded before the copy plus what it yields afterwards)
+void op_it_copy(const Step& s) {
+	Client& c = CL(s); if (c.iters.empty() || c.iters.size() > 12) throw Skip();
+	size_t i = size_t(mod(s.arg(0), c.iters.size()));
+	if (c.iters[i].done || c.iters[i].kind == 2) throw Skip();
+	IterH n; n.kind = c.iters[i].kind; n.aut = c.iters[i].aut; n.alpha = c.iters[i].alpha; n.yielded = c.iters[i].yielded; n.expect = c.iters[i].expect;
+	api_begin();
+	if (n.kind == 0) { n.it.reset(new ET::Iterator(*c.iters[i].it)); n.end.reset(new ET::Iterator(*c.iters[i].end)); }
+	else { n.ait.reset(new ET::AcceptTrans::Iterator(*c.iters[i].ait)); n.aend.reset(new ET::AcceptTrans::Iterator(*c.iters[i].aend)); }
+	c.iters.push_back(std::move(n));
+}
+
 void op_it_drop(const Step& s) {
 	Client& c = CL(s); if (c.iters.empty()) throw Skip();
 	size_t i = size_t(mod(s.arg(0), c.iters.size()));
@@ -1147,7 +1160,7 @@ void register_expl_ops() {
 	register_op("et_destroy", op_destroy); register_op("et_give", op_give);
 	register_op("et_add", op_add); register_op("et_final", op_final); register_op("et_finals", op_finals);
 	register_op("et_erase_finals", op_erase_finals); register_op("et_clear", op_clear);
-	register_op("it_begin", op_it_begin); register_op("it_next", op_it_next); register_op("it_drop", op_it_drop);
+	register_op("it_begin", op_it_begin); register_op("it_next", op_it_next); register_op("it_drop", op_it_drop); register_op("it_copy", op_it_copy);
 	register_op("et_observe", op_observe);
 	register_op("et_union", op_union); register_op("et_union_disj", op_union_disj);
 	register_op("et_isect", op_isect); register_op("et_isect_bu", op_isect_bu);
